@@ -34,7 +34,10 @@ pub enum Step { ReduceAll(bool), ReduceAt(u8, bool), Spec(u8, bool, u8), Conveni
 pub struct Case { pub rty: RTy, pub degs: Vec<Deg>, pub steps: Vec<Step>, pub vecs: Vec<(u8, Vec<(u8, i8)>)>, pub threads: u8, pub with_trans: bool, pub sched: Sched,
     /// instead of the planted complex: the two-term complex C_0 --d--> C_1 of one large sparse matrix from C11's generator
     /// (random, or conflict-rich for the parallel pivot search); `rty` agrees with its ring
-    #[serde(default)] pub wide: Option<crate::props::c11::Case> }
+    #[serde(default)] pub wide: Option<crate::props::c11::Case>,
+    /// Some(mask): the reducer is assembled with ChainReducer::new + set_matrix(j, d_j, with_trans = bit j of mask), i.e.
+    /// transfer maps are tracked in some degrees only (overrides `with_trans`)
+    #[serde(default)] pub trans_mask: Option<u8> }
 
 fn ty_of(r: RTy) -> Ty { match r { RTy::I64 => Ty::I64, RTy::Big => Ty::Big, RTy::Q => Ty::QI64, RTy::F2 => Ty::F2, RTy::F3 => Ty::FF3, RTy::PolyH => Ty::PQI64 } }
 
@@ -109,10 +112,15 @@ fn run_ty<R>(c: &Case, tier: Tier) -> Chk<Pass> where R: Sc + yui::Ring, for<'x>
     }
 
     let (res, retries, _commits) = with_schedule(threads, c.sched, || guard(|| {
-        if c.steps.iter().any(|s| matches!(s, Step::Convenience)) && vmods.is_empty() {
+        if c.steps.iter().any(|s| matches!(s, Step::Convenience)) && vmods.is_empty() && c.trans_mask.is_none() {
             return ChainReducer::reduce(&cx, c.with_trans);
         }
-        let mut r = ChainReducer::from(&cx, c.with_trans);
+        let mut r = match c.trans_mask {
+            None => ChainReducer::from(&cx, c.with_trans),
+            Some(mask) => { let mut r = ChainReducer::new(0..=(l as isize - 1), 1);
+                for j in 0..=(l as isize) { if !r.is_set(j) { r.set_matrix(j, cx.d_matrix(j), (mask >> (j as u32 % 8)) & 1 == 1); } }
+                r }
+        };
         for (i, v) in &vmods { let sv: SpVec<R> = rm_to_spvec(v).unwrap(); r.add_vec(*i as isize, sv); }
         for s in &c.steps {
             match s {
@@ -139,7 +147,8 @@ fn run_ty<R>(c: &Case, tier: Tier) -> Chk<Pass> where R: Sc + yui::Ring, for<'x>
             Some(t) => { f.push(Some(sp_to_rm(&t.forward_mat()).map_err(|e| Bad::Fail(e))?)); b.push(Some(sp_to_rm(&t.backward_mat()).map_err(|e| Bad::Fail(e))?)); }
             None => { f.push(None); b.push(None); }
         }
-        ensure!(c.with_trans == r.trans(i as isize).is_some(), "{what}: transfer map presence at degree {i}");
+        let want_trans = match c.trans_mask { None => c.with_trans, Some(mask) => (mask >> (i as u32 % 8)) & 1 == 1 };
+        ensure!(want_trans == r.trans(i as isize).is_some(), "{what}: transfer map presence at degree {i}");
     }
     let nred: Vec<usize> = dred.iter().map(|d| d.n).collect();
     for i in 0..l {
@@ -151,7 +160,7 @@ fn run_ty<R>(c: &Case, tier: Tier) -> Chk<Pass> where R: Sc + yui::Ring, for<'x>
         if let (Some(fi), Some(bi_)) = (&f[i], &b[i]) {
             ensure!(fi.shape() == (nred[i], p.ranks[i]) && bi_.shape() == (p.ranks[i], nred[i]), "{w}: transfer map shapes {:?} {:?}", fi.shape(), bi_.shape());
             ensure!(fi.mul(bi_).is_id(), "{w}: F B != I on the reduced complex: F B = {}", fi.mul(bi_).show());
-            if i + 1 < l { let (fn_, bn) = (f[i + 1].as_ref().unwrap(), b[i + 1].as_ref().unwrap());
+            if let (true, Some(fn_), Some(bn)) = (i + 1 < l, f.get(i + 1).and_then(|x| x.as_ref()), b.get(i + 1).and_then(|x| x.as_ref())) {
                 ensure!(fn_.mul(&p.d[i]) == dred[i].mul(fi), "{w}: F is not a chain map: F_{} d_{i} = {} but d'_{i} F_{i} = {}", i + 1, fn_.mul(&p.d[i]).show(), dred[i].mul(fi).show());
                 ensure!(p.d[i].mul(bi_) == bn.mul(&dred[i]), "{w}: B is not a chain map: d_{i} B_{i} = {} but B_{} d'_{i} = {}", p.d[i].mul(bi_).show(), i + 1, bn.mul(&dred[i]).show());
             }
@@ -191,7 +200,7 @@ fn run_ty<R>(c: &Case, tier: Tier) -> Chk<Pass> where R: Sc + yui::Ring, for<'x>
     }
     let reduced_any = (0..l).any(|i| nred[i] < p.ranks[i]);
     Ok(Pass::new().nt(reduced_any && l >= 2).label(format!("ring:{:?}", c.rty)).label(format!("threads:{threads}")).label_if(reduced_any, "pivots-found")
-        .label_if(!vmods.is_empty(), "tracked-vectors").label_if(!c.with_trans, "without-trans").label_if(dred.iter().all(|d| d.is_zero()), "fully-reduced").label_if(retries > 0, "pivot-retry>=1").label_if(c.wide.is_some(), "wide-two-term-complex").label(format!("sched:{}", match c.sched { Sched::Free => "free", Sched::Barrier(_) => "barrier", Sched::Delay(..) => "delay", Sched::Stagger => "stagger" })))
+        .label_if(!vmods.is_empty(), "tracked-vectors").label_if(!c.with_trans, "without-trans").label_if(dred.iter().all(|d| d.is_zero()), "fully-reduced").label_if(retries > 0, "pivot-retry>=1").label_if(c.wide.is_some(), "wide-two-term-complex").label_if(c.trans_mask.is_some(), "transfer-maps-in-some-degrees-only").label(format!("sched:{}", match c.sched { Sched::Free => "free", Sched::Barrier(_) => "barrier", Sched::Delay(..) => "delay", Sched::Stagger => "stagger" })))
 }
 
 fn run_case(c: &Case, tier: Tier) -> Chk<Pass> {
@@ -215,7 +224,7 @@ impl Prop for C08 {
     type Case = Case;
     const ID: &'static str = "C08";
     fn rule() -> String {
-        "case = (ring in {i64, BigInt, Ratio<i64>, F2, F3, Z[H] = Poly<'H',i64>}, complex of length 1..6 built by construction (planted ranks, factors from units and non-units so reduction is partial, sparse unimodular changes of basis) or, in one case of five, the two-term complex of one large sparse matrix from C11's generator (random or conflict-rich for the parallel pivot search, up to 60 x 60), a script of reduction steps (reduce_all(shallow/deep), reduce_at(i, deep), reduce_at_spec(i, Rows|Cols, One|AnyUnit|Weight), ChainReducer::reduce), tracked vectors added before the script, thread count in {1,2,4,8,16}, with/without transfer maps). \
+        "case = (ring in {i64, BigInt, Ratio<i64>, F2, F3, Z[H] = Poly<'H',i64>}, complex of length 1..6 built by construction (planted ranks, factors from units and non-units so reduction is partial, sparse unimodular changes of basis) or, in one case of five, the two-term complex of one large sparse matrix from C11's generator (random or conflict-rich for the parallel pivot search, up to 60 x 60), a script of reduction steps (reduce_all(shallow/deep), reduce_at(i, deep), reduce_at_spec(i, Rows|Cols, One|AnyUnit|Weight), ChainReducer::reduce), tracked vectors added before the script, thread count in {1,2,4,8,16}, with/without transfer maps or (one planted case in five) with transfer maps tracked in a generated subset of the degrees through ChainReducer::new + set_matrix). \
          after the script, with reference products on the extracted matrices: shapes consistent, d'd' = 0, F_i+1 d_i = d'_i F_i, d_i B_i = B_i+1 d'_i, F_i B_i = I, tracked vector k at degree i equals F_i v_k, and the homology fingerprint (free rank per degree and, for Z and Z[H] specialised at H = 2,-3,5, the positive valuations at 2,3,5 of the incoming differential) computed by the harness's own elimination is unchanged; the reduction runs under a hook-controlled schedule strategy (Free / Barrier / Delay / Stagger, as in C11). \
          non-trivial = at least one step removed a pivot and the complex has length >= 2".into()
     }
@@ -229,7 +238,7 @@ impl Prop for C08 {
             .prop_map(|(w, steps, vecs, with_trans)| {
                 use crate::props::c11::RTy as W;
                 let rty = match w.rty { W::I64 => RTy::I64, W::Q => RTy::Q, W::F3 => RTy::F3, W::PolyH => RTy::PolyH };
-                Case { rty, degs: vec![], steps, vecs, threads: w.threads, with_trans, sched: w.sched, wide: Some(w) } });
+                Case { rty, degs: vec![], steps, vecs, threads: w.threads, with_trans, sched: w.sched, wide: Some(w), trans_mask: None } });
         let planted = prop::sample::select(vec![RTy::I64, RTy::Big, RTy::Q, RTy::F2, RTy::F3, RTy::PolyH]).prop_flat_map(move |rty| {
             let deg = (0u8..8, 0u8..8, prop::collection::vec(factor(rty), 0..8), Just(false), prop::collection::vec((0u8..2, any::<u8>(), any::<u8>(), -1i8..=1), 0..6))
                 .prop_map(|(b, c, factors, chain, ops)| Deg { b, c, factors, chain, ops });
@@ -237,7 +246,8 @@ impl Prop for C08 {
                 5 => (any::<u8>(), any::<bool>(), 0u8..4).prop_map(|(i, c, k)| Step::Spec(i, c, k)), 1 => Just(Step::Convenience)];
             let vecs = prop::collection::vec((any::<u8>(), prop::collection::vec((any::<u8>(), -2i8..=2), 0..5)), 0..4);
             (Just(rty), prop::collection::vec(deg, 1..=nd + 1), prop::collection::vec(step, 1..6), vecs, any::<u8>(), prop_oneof![5 => Just(true), 1 => Just(false)], sched_strategy())
-                .prop_map(|(rty, degs, steps, vecs, threads, with_trans, sched)| Case { rty, degs, steps, vecs, threads, with_trans, sched, wide: None })
+                .prop_flat_map(|t| (Just(t), prop::option::weighted(0.2, any::<u8>())))
+                .prop_map(|((rty, degs, steps, vecs, threads, with_trans, sched), trans_mask)| Case { rty, degs, steps, vecs, threads, with_trans, sched, wide: None, trans_mask })
         });
         prop_oneof![4 => planted, 1 => wide].boxed()
     }
